@@ -28,7 +28,8 @@ MANIFEST_ENTRY = {
                   "concurrent operations: pointer-named table = serial application of flips (pre/post, post iff flipped), "
                   "referenced files present, invariant preserved, a fresh committer can run to success after any crash; "
                   "tied to the code by fork-and-kill at EVERY storage-level / OS-level step of create, append, delete_files, "
-                  "expire, delete_snapshot and garbage_collect on tables with 0..3 prior snapshots, each followed by reopen, "
+                  "expire, delete_snapshot, garbage_collect and of transactions COMBINING kinds (append+expire, delete+append, "
+                  "delete+append+expire, two appends: one operation, one pointer advance) on tables with 0..3 prior snapshots, each followed by reopen, "
                   "full read of every retained snapshot, follow-up append and grace-0 collection",
     "level_note": "trusted: Coq kernel; fork/os._exit as the crash (page cache survives: power loss is C16); kernel drops flocks "
                   "of a dead process; the model's steps are the protocol steps, the sub-steps of one atomic write are covered by "
@@ -71,6 +72,29 @@ def op_fn(kind: str, root: str, pre: Optional[Dict[str, Any]]) -> Callable[[], A
                 tx.commit()
         elif kind == "delete_snapshot":
             t.snapshot_manager.delete_snapshot(pre["log_order"][0])
+        # ONE transaction combining several kinds of operation is ONE operation: it must take effect as a whole
+        # (a crash may show the pre-state or the post-state, never "the append without the expiry")
+        elif kind == "append+expire":
+            with t.new_transaction() as tx:
+                tx.append_data([{"x": 100}])
+                tx.expire_snapshots(2**62)
+                tx.commit()
+        elif kind == "delete+append":
+            with t.new_transaction() as tx:
+                tx.delete_files([pre["snapshots"][pre["current"]]["files"][0]])
+                tx.append_data([{"x": 100}])
+                tx.commit()
+        elif kind == "delete+append+expire":
+            with t.new_transaction() as tx:
+                tx.delete_files([pre["snapshots"][pre["current"]]["files"][0]])
+                tx.append_data([{"x": 100}])
+                tx.expire_snapshots(2**62)
+                tx.commit()
+        elif kind == "append+append":
+            with t.new_transaction() as tx:
+                tx.append_data([{"x": 100}])
+                tx.append_data([{"x": 101}])
+                tx.commit()
         elif kind == "collect":
             t.garbage_collect(grace_period_ms=0)
         else:
@@ -190,8 +214,10 @@ def run(ctx) -> None:
     ctx.proofs(THEOREMS, gen_files=["GenCommit.v"])
     ctx.allow_axioms([])
     quick = ctx.tier == "quick"
-    plan = [("append", 2), ("delete_snapshot", 2), ("create", 0), ("expire", 3), ("delete_files", 2)] if quick else \
-        [("create", 0), ("append", 0), ("append", 1), ("append", 3), ("delete_files", 2), ("expire", 3), ("delete_snapshot", 2), ("delete_snapshot", 3), ("collect", 2)]
+    plan = [("append", 2), ("delete_snapshot", 2), ("create", 0), ("expire", 3), ("delete_files", 2), ("append+expire", 3),
+            ("delete+append+expire", 2)] if quick else \
+        [("create", 0), ("append", 0), ("append", 1), ("append", 3), ("delete_files", 2), ("expire", 3), ("delete_snapshot", 2), ("delete_snapshot", 3), ("collect", 2),
+         ("append+expire", 3), ("delete+append", 2), ("delete+append+expire", 3), ("append+append", 1)]
     bad = []
     total = 0
     for kind, nsnap in plan:
